@@ -91,7 +91,8 @@ async fn run_case(case: &Case, rec: &Rec) -> Value {
         let ks: Vec<usize> = pts.iter().filter(|p| &p.0 == op).map(|p| p.1).collect();
         let n = ks.len();
         for (i, k) in ks.iter().enumerate() {
-            if i < 2 || i + 1 == n || (n > 4 && i == n / 2) {
+            // first two, middle, last, and the chunks around multiples of the channel capacity (16)
+            if i < 2 || i + 1 == n || (n > 4 && i == n / 2) || (i >= 15 && (i % 16 <= 1 || i % 16 == 15)) {
                 chosen.push((op.clone(), *k));
             }
         }
